@@ -16,6 +16,9 @@ setup(shim=True)
 from gunicorn.http.body import Body, ChunkedReader, LengthReader  # noqa: E402
 from gunicorn.http.unreader import IterUnreader  # noqa: E402
 from harness.c01 import mk_req  # noqa: E402
+from engine.stubs import workers as _W  # noqa: E402
+
+_W.install_clock()
 from oracles.bytesio_model import FileModel  # noqa: E402
 
 PROPERTY = "C07"
@@ -208,6 +211,45 @@ def pipeline(si: int, ki: int, chunked: bool, seg: int) -> bool:
     return False
 
 
+# ---- 5. the same across a worker's keep-alive loop: gthread re-dispatches a connection through the poller ---------------------
+def worker_next(kind_i: int, consumed: int, layout: int, blen: int) -> bool:
+    """
+    pre: 0 <= kind_i <= 1 and 0 <= consumed <= 2 and 0 <= layout <= 2 and 1 <= blen <= 3
+    post: __return__
+    """
+    # request 1 carries a body of which the application reads nothing / one byte / everything; request 2 follows on the same
+    # connection - in the same segment as the body (pipelined), in the segment after it, or with the body itself arriving in
+    # a later segment than the head.  The application must see exactly [/one, /two]: request 2 is parsed from the first
+    # byte after the body, whichever worker-side object (parser, unreader) lives across the two requests.
+    from engine.stubs import workers as W
+    from engine.stubs.recsock import RecSock
+    kind = ["gthread", "async"][pick(kind_i, 0, 1)]
+    consumed, layout, blen = pick(consumed, 0, 2), pick(layout, 0, 2), pick(blen, 1, 3)
+    body = b"GET"[:blen]                                  # looks like the start of a request line if mis-parsed
+    seen = []
+
+    def app(environ, start_response):
+        inp = environ["wsgi.input"]
+        got = b"" if consumed == 0 else (inp.read(1) if consumed == 1 else inp.read())
+        seen.append((environ["RAW_URI"], got))
+        start_response("200 OK", [("Content-Length", "2")])
+        return [b"ok"]
+    head1 = ("POST /one HTTP/1.1\r\nHost: h\r\nContent-Length: %d\r\n\r\n" % blen).encode()
+    req2 = b"GET /two HTTP/1.1\r\nHost: h\r\n\r\n"
+    script = [[head1 + body + req2], [head1 + body, req2], [head1, body + req2]][layout]
+    cfg = W.make_cfg(keepalive=2, threads=2, worker_connections=4)
+    w = (W.thread_worker if kind == "gthread" else W.async_worker)(cfg, app)
+    if kind == "gthread":
+        w._keep.clear()
+    c = RecSock(script)
+    if kind == "gthread":
+        W.gthread_serve(w, c, max_dispatch=6)
+    else:
+        W.run_connection(kind, w, c)
+    want1 = b"" if consumed == 0 else (body[:1] if consumed == 1 else body)
+    return seen == [("/one", want1), ("/two", b"")] and c.closed >= 1
+
+
 def next_req_twin(k: int, tail: bytes, cut: int) -> bool:
     """
     pre: 0 <= k <= 4
@@ -259,5 +301,8 @@ OBLIGATIONS = [
        bound="real RequestParser: first request with a concrete body of {0,5,1024,8192,65536,65537,70000,200000} bytes "
              "(Content-Length or chunked), application reads {0,3,half,all}, stream fed whole / in 8192- / 1000-byte reads; "
              "the next request must be exactly the pipelined one"),
+    Ob("C07.worker_next", "worker_next", timeout=600,
+       bound="gthread and async-base keep-alive loops: POST with a 1..3 byte body of which the application reads 0 / 1 / all bytes, "
+             "followed by a second request in the same segment, the next segment, or with the body split from its head"),
     Ob("C07.next_req.twin", "next_req_twin", cases=[{"tail": 2}], expect="refute", timeout=60),
 ]
